@@ -459,6 +459,24 @@ def run(rep):
         e2e[mode] = dict(steps=len([d for d in descr if d]), mismatches=nbad)
         evaluations += e2e[mode]["steps"]
 
+    # (c') scripted: the inline Create's storing goroutine is parked right after its store FAILED (pause point
+    # inline.create.setFailed, before the error is handed to the file): Close must still be waiting - it may not return
+    # before the failure is recorded - and must report the error class afterwards; the old value stays
+    from lib import histprops as _P
+    for c in _P.corpus("c12_inline.txt"):
+        o = C.run_lines(fsdbh, "hist", c.split("\n"), timeout=120)
+        ops = [l for l in c.split("\n") if not l.startswith("keytab")]
+        res = dict(zip(ops, o))
+        evaluations += 1
+        if any(r in ("AWAIT-TIMEOUT", "WAIT-TIMEOUT") for r in o):
+            raise C.CheckBroken("scripted inline Create schedule did not run as scripted: %s" % o)
+        if res.get("poll A 300") != "RUNNING" or res.get("wait A") != "err EmptyKey":
+            rep.violation(dict(kind="property", origin="scripted schedule through pause point inline.create.setFailed",
+                               what="Close returned (%s) while the failing store had not yet reported its error, or the error class is lost "
+                                    "(after release: %s): a failed store must make Close (or a Write) fail with its class" % (
+                                        res.get("poll A 300"), res.get("wait A")), case=c, impl=o))
+    e2e["scripted_failed_store"] = len(_P.corpus("c12_inline.txt"))
+
     # (d) the stream writer's chunking against the model (writer_chunks)
     sw = sw_cases(C.rng_for(rep.seed, "c12-sw"), 300 if quick else 3000)
     sw_i = C.run_lines(fsdbh, "swchunks", sw)
